@@ -18,7 +18,7 @@ WITNESS = {
     "F-28-capacity": (ENG, "sieve 2 3 0 0 60 0 0 0 %d s i 2 102 2 x 2 i 0 104 4 m $ p 0 p 2 y 900" % B, "capacity-stale-write-event"),
     "F-29": (ENG, "fifo 1 10 0 0 60 0 0 0 %d s i 1 100 1 m i 1 101 8 i 2 102 8 m $ p 1 p 2 y 900" % B, "cost-drift-readmit"),
     "F-29-capacity": (ENG, "fifo 1 10 0 0 60 0 0 0 %d s i 1 100 8 m i 1 101 1 i 2 102 8 i 3 103 8 m $ p 1 p 2 p 3 y 900" % B, "capacity-readmit"),
-    "F-34": (ENG, "lru 1 4 0 0 60 0 0 0 %d s i 1 100 1 %s i 1 101 0 m $ p 1 p 2 y 900" % (B, " ".join("i 2 %d 5" % (200 + i) for i in range(15))), "cost-drift-partial-drain"),
+    "F-34-drain": (ENG, "lru 1 4 0 0 60 0 0 0 %d s i 1 100 1 %s i 1 101 0 m $ p 1 p 2 y 900" % (B, " ".join("i 2 %d 5" % (200 + i) for i in range(15))), "cost-drift-partial-drain"),
 }
 
 
